@@ -28,6 +28,12 @@ pub trait SimdOp {
 /// This function will check the available SIMD instruction sets and then
 /// dispatch to [`SimdOp::eval`], passing the selected [`Isa`].
 pub fn dispatch<Op: SimdOp>(op: Op) -> Op::Output {
+    #[cfg(rten_verif)]
+    let op = match crate::verif::dispatch_forced(op) {
+        Ok(output) => return output,
+        Err(op) => op,
+    };
+
     #[cfg(target_arch = "aarch64")]
     if let Some(isa) = super::arch::aarch64::ArmNeonIsa::new() {
         return op.eval(isa);
